@@ -100,6 +100,60 @@ class SlowStr:
         return "SlowStr(%s)" % (self.tag,)
     __repr__ = __str__
 
+class NoNameMeta(type):
+    @property
+    def __name__(cls):
+        raise RuntimeError("no name for you")
+
+class Nameless(metaclass=NoNameMeta):
+    pass
+
+class OddStr(str):
+    def __getitem__(self, i):
+        raise RuntimeError("no slicing")
+    def __len__(self):
+        raise RuntimeError("no len")
+    def startswith(self, *a):
+        raise RuntimeError("no startswith")
+    def encode(self, *a, **k):
+        raise RuntimeError("no encode")
+
+class GivesOddStr:
+    def __str__(self):
+        return OddStr("odd text")
+    __repr__ = __str__
+
+REPR_CALLS = []
+
+class CountedLeaf:
+    def __repr__(self):
+        REPR_CALLS.append(1)
+        return "leaf"
+
+def mk_dag(n):
+    v = [CountedLeaf()]
+    for _i in range(n):
+        v = [v, v]
+    return v
+
+class Item:
+    def __init__(self):
+        self._Items = [1, 2]
+        self._Item = "exact"
+        self.__secret = 1
+
+class ClockBack:
+    """Rendering this value takes 'negative time': the wall clock is set back two seconds while the agent looks at it."""
+    def __str__(self):
+        import simkit.kernel as _sk
+        k = _sk.active()
+        if k is not None and not getattr(self, "done", False):
+            self.done = True
+            k.wall_offset -= 2_000_000_000
+            k.fault("clock_jump_back")
+        return "ClockBack"
+    __repr__ = __str__
+
 class IntKey:
     pass
 
@@ -156,7 +210,8 @@ OFFENDERS = (
 
 
 # used by C06 only: a wholly hostile object, and one whose rendering alone outlasts the per-tracepoint time budget
-OFFENDERS_HOSTILE = ("BadAll()", "SlowStr(7)")
+OFFENDERS_HOSTILE = ("BadAll()", "SlowStr(7)", "Nameless()", "GivesOddStr()", "{OddStr('k'): 1, 'plain': 2}", "mk_dag(14)",
+                     "Item()")
 
 
 def value_expr(r, depth=0, offenders=False, maxdepth=3):
@@ -378,7 +433,7 @@ EXOTIC = (
     "__import__('enum').IntEnum('Lvl', 'LOW HIGH').HIGH", "type('TupSub', (tuple,), {})((1, 2, 3))",
     "type('TupOne', (tuple,), {})(('%d',))", "type('StrSub', (str,), {})('text %s')", "type('IntSub', (int,), {})(7)",
     "type('ListSub', (list,), {})([1, 2])", "type('DictSub', (dict,), {})(a=1)", "type('FloatSub', (float,), {})(2.5)",
-    "__import__('collections').Counter('aab')", "__import__('collections').defaultdict(list, a=[1])",
+    "__import__('collections').Counter('aab')", "__import__('collections').defaultdict(list, a=[1])", "Item()",
 )
 
 
